@@ -7,18 +7,19 @@ set -eu
 out=${1:?usage: build.sh <output-path> [c|c++]}
 flavour=${2:-c}
 here=$(cd "$(dirname "$0")" && pwd)
-src=${DLL_SRC:-/repo/internal/dll.c}
+repo="${NSYNC_REPO:-/repo}"
+src=${DLL_SRC:-$repo/internal/dll.c}
 mkdir -p "$(dirname "$out")"
 case "$flavour" in
 c)
-	gcc -O2 -Wall -I/repo/platform/linux -I/repo/platform/gcc -I/repo/platform/posix \
-		-I/repo/platform/x86_64 -I/repo/public -I/repo/internal \
+	gcc -O2 -Wall -I$repo/platform/linux -I$repo/platform/gcc -I$repo/platform/posix \
+		-I$repo/platform/x86_64 -I$repo/public -I$repo/internal \
 		"$here/gen.c" "$src" -o "$out"
 	;;
 c++)
 	g++ -x c++ -std=c++11 -O2 -Wall -DNSYNC_ATOMIC_CPP11 -DNSYNC_USE_CPP11_TIMEPOINT \
-		-I/repo/platform/c++11 -I/repo/platform/gcc -I/repo/platform/posix \
-		-I/repo/public -I/repo/internal \
+		-I$repo/platform/c++11 -I$repo/platform/gcc -I$repo/platform/posix \
+		-I$repo/public -I$repo/internal \
 		"$here/gen.c" "$src" -o "$out"
 	;;
 *)
